@@ -12,6 +12,12 @@ checks = {
  "C17": dict(cat="model_checking", engine="vsched+explore", tech=MC, ref="DESIGN.md §5 C17",
    text="all interleavings within the preemption bound of two connection threads, the real SIGHUP goroutine of run.ReloadableOrchestrator and the moment(s) of SIGHUP, at the orchestrator API with recording downstream orchestrators: distinct and reused client numbers, reload succeeding and failing, two reloads; oracles: no record handed to a shut-down pipeline set, every accepted record delivered exactly once, no sink closed by another connection, no nil-sink panic, failed reload has no effect but the failure count",
    note="API level (the deciding level the property names); preemption bound 2 quick / 3 thorough; downstream orchestrators are recording fakes; configuration-file level of reload is exercised by run's own tests and the composed harness"),
+ "C04": dict(cat="fault_enumeration", engine="seq+vfs", tech="exhaustive fault and crash-point enumeration over a syscall seam (every byte offset of the file write, every syscall boundary, every position of the affected chunk), restart and strict comparison with the produced bytes", ref="DESIGN.md §5 C04",
+   text="for every chunk size in the menu, every position of the affected chunk, spill-at-Accept and save-at-shutdown: every k at which the write stops (short write, ENOSPC/EFBIG/EIO), errors at open/close/rename/fsync, process death before every syscall and after every k bytes of every write of the chunk file; the real hybridbuffer recovers the resulting directory; every forwarded chunk must be byte-identical, undamaged chunks recovered in order, the damaged one accounted",
+   note="process-death model (page cache survives); faults injected at unix.*/os.Rename/os.Remove call sites of util and hybridbuffer via AST rewrite (seam-blind guard if the write path moves elsewhere); default schedule"),
+ "C18": dict(cat="model_checking", engine="vsched+explore", tech=MC, ref="DESIGN.md §5 C18",
+   text="real hybridbuffer + real ClientWorker over a scripted upstream; the stop request lands at every scheduling point (cost 1) under every upstream answer script within the bound (refuse, hang, reset, blocked write, silent, late ACK), small and large-chunk class, resend-after-failure start state; oracles: Destroy returns within BufferShutDownTimeout+IntermediateChannelTimeout of virtual time, feeder and client stopped, no BUG safety-net log, every unacknowledged chunk is a byte-identical file (none only in memory)",
+   note="delay bounding (every departure from the default schedule costs 1) at bound 2-3 quick, +preemption bounding thorough; the listener/orchestrator part of shutdown is covered by the composed harness when built"),
  "C13": dict(cat="exploration", engine="seq", tech="bounded-exhaustive enumeration of inputs against an independent integer reference model (all fractions up to 6/9 digits, all offsets, all short strings over a 9-symbol alphabet, all one-edit neighbours)", ref="DESIGN.md §5 C13",
    text="complete enumeration of the stated finite input domains through the exported parseTime transform; exactness to the nanosecond against days-from-civil integer arithmetic; totality (no panic) and error+count+fallback for strings not shaped like a date-time",
    note="valid timestamps outside the enumerated date/offset/fraction grid are not covered; leap second and non-digit digit positions only checked for totality"),
@@ -31,6 +37,8 @@ manifest = {
  "engines": [
   {"name": "vsched+explore", "path": "rt/vsched, instr, explore", "serves_properties": [k for k in order if k in checks and checks[k]["engine"] == "vsched+explore"],
    "kind_free_text": "stateless model checker for the real Go code: a type-aware AST instrumenter routes channel/select/go/sync/atomic/time/signal operations to a cooperative scheduler (real primitives kept, gates release an operation only when it cannot block); DFS over scheduler and environment choices with iterative deviation bounding, replay with divergence detection, 16 worker processes"},
+  {"name": "seq+vfs", "path": "seq, rt/vfs, harness/crashfs", "serves_properties": ["C04"],
+   "kind_free_text": "fault / crash-point enumerator: syscall seam (AST-rewritten unix.* calls) with fault plans and crash plans, two-generation runs of the real buffer under the deterministic cooperative scheduler"},
   {"name": "seq", "path": "seq, harness/seq_*", "serves_properties": [k for k in order if k in checks and checks[k]["engine"] == "seq"],
    "kind_free_text": "bounded-exhaustive enumerator: deterministic case enumeration sharded over 16 worker processes, panic capture and worker-death attribution to the case in flight, reference models as oracles, single-case replay"},
  ],
